@@ -14,8 +14,12 @@ sys.path.insert(0, os.path.join(ROOT, "lib"))
 CHECKS = {}
 for _pid in ALL:
     if os.path.exists(os.path.join(ROOT, "lib", _pid.lower() + ".py")):
-        _m = importlib.import_module(_pid.lower())
-        if getattr(_m, "MANIFEST", None):
+        try:
+            _m = importlib.import_module(_pid.lower())
+        except Exception as _e:  # a module under construction must not break the manifest
+            print("skipping %s: %s" % (_pid, _e))
+            continue
+        if getattr(_m, "MANIFEST", None) and getattr(_m, "READY", True):
             CHECKS[_pid] = _m.MANIFEST
 
 NOT_YET = "check not built yet (work in progress; see DESIGN.md for the planned TLA+ model and binding)"
